@@ -7,6 +7,8 @@
      body := "G" name | "S" name | "K" name | "D" n name* | "W" n name* | "C" n name* n z*
      op   := "g" route n name* | "s" route n name* z | "c" n name* n z* | "v" wname param argsym n name* n z*
              | "f" n target* n source*
+             | "r" "deref" n name* | "r" "arg" n name* | "r" "callx" n name* n z* | "r" "ind" n name* n z*
+             | "r" "hget" n root* n rest* | "r" "cmp" n name* | "r" "defdot" n name* z      (Model/PkgRoutes.v)
    route (projection of a read): full | plus | type
    Output: ID<TAB>model observables joined by "|"<TAB>specification observables joined by "|" *)
 open Model
@@ -60,18 +62,32 @@ let rec parse_decl () =
   | "Z" -> DNil
   | t -> failwith ("bad decl " ^ t)
 
-type pop = { o : op; route : string }
+type pop = { o : rop; route : string }
 let parse_op () =
   match next () with
-  | "g" -> let r = next () in let p = names () in { o = OpGet p; route = r }
-  | "s" -> let r = next () in let p = names () in let z = z_of_string (next ()) in { o = OpSet (p, z); route = "full" }
+  | "g" -> let r = next () in let p = names () in { o = RBase (OpGet p); route = r }
+  | "s" -> let r = next () in let p = names () in let z = z_of_string (next ()) in { o = RBase (OpSet (p, z)); route = "full" }
   | "c" -> let p = names () in let n = next_int () in
-           let args = times n (fun () -> z_of_string (next ())) in { o = OpCall (p, args); route = "full" }
+           let args = times n (fun () -> z_of_string (next ())) in { o = RBase (OpCall (p, args)); route = "full" }
   | "v" -> let wname = next_name () in let param = next_name () in let argsym = next_name () in
            let p = names () in let n = next_int () in
            let args = times n (fun () -> z_of_string (next ())) in
-           { o = OpCallVia (wname, param, argsym, p, args); route = "full" }
-  | "f" -> let t = names () in let src = names () in { o = OpSetFrom (t, src); route = "setfrom" }
+           { o = RBase (OpCallVia (wname, param, argsym, p, args)); route = "full" }
+  | "f" -> let t = names () in let src = names () in { o = RBase (OpSetFrom (t, src)); route = "setfrom" }
+  | "r" ->
+    let kind = next () in
+    let p = names () in
+    let zs () = let n = next_int () in times n (fun () -> z_of_string (next ())) in
+    let o = (match kind with
+      | "deref" -> RDeref p
+      | "arg" -> RArg p
+      | "callx" -> RCallExpr (p, zs ())
+      | "ind" -> RIndirect (p, zs ())
+      | "hget" -> let rest = names () in RHget (p, rest)
+      | "cmp" -> RCompound p
+      | "defdot" -> RDefDot (p, z_of_string (next ()))
+      | k -> failwith ("bad route " ^ k)) in
+    { o; route = "full" }
   | t -> failwith ("bad op " ^ t)
 
 (* rendering of values; hashes by content (insertion order), packages by name *)
@@ -133,11 +149,11 @@ let () =
           let ops = times no parse_op in
           let hm = ref h0 and hs = ref h0 in
           let mo = List.map (fun p ->
-            match run_op is_upper !hm p.o with
+            match route_run is_upper !hm p.o with
             | Ok (h', v) -> hm := h'; project p.route h' v
             | Err e -> show_err e) ops in
           let so = List.map (fun p ->
-            match spec_op is_upper !hs p.o with
+            match route_spec is_upper !hs p.o with
             | Allowed (h', v) -> hs := h'; project p.route h' v
             | Denied (m, pk) -> "PRIV:" ^ string_of_name m ^ ":" ^ string_of_name pk
             | NotFound -> "NF"
